@@ -357,6 +357,14 @@ func (c *Ctx) DerivesFrom(v ssa.Value, pred func(ssa.Value) bool, depth int) boo
 			return true
 		}
 		switch x := v.(type) {
+		case *ssa.MakeMap:
+			for _, r := range eng.Referrers(x) {
+				if mu, ok := r.(*ssa.MapUpdate); ok && mu.Map == ssa.Value(x) {
+					if rec(mu.Key, d+1) || rec(mu.Value, d+1) {
+						return true
+					}
+				}
+			}
 		case *ssa.Alloc:
 			for _, r := range eng.Referrers(x) {
 				switch fa := r.(type) {
@@ -543,4 +551,73 @@ func (c *Ctx) sendsPacket(in ssa.Instruction, typeName string) bool {
 	}
 	want, ok := c.packetConst(typeName)
 	return ok && pl.Type == want
+}
+
+// joinParts describes the elements of a filepath.Join / path.Join call:
+// constants by value, field loads by owner, parameters by name.
+func (c *Ctx) joinParts(v ssa.Value) ([]string, bool) {
+	call, ok := v.(*ssa.Call)
+	if !ok {
+		return nil, false
+	}
+	n := c.P.CalleeName(call)
+	if n != "path/filepath.Join" && n != "path.Join" {
+		return nil, false
+	}
+	if len(call.Call.Args) != 1 {
+		return nil, false
+	}
+	sl, ok := call.Call.Args[0].(*ssa.Slice)
+	if !ok {
+		return nil, false
+	}
+	arr, ok := sl.X.(*ssa.Alloc)
+	if !ok {
+		return nil, false
+	}
+	parts := map[int]string{}
+	max := -1
+	for _, r := range eng.Referrers(arr) {
+		ia, ok := r.(*ssa.IndexAddr)
+		if !ok {
+			continue
+		}
+		idx, ok := eng.ConstInt(ia.Index)
+		if !ok {
+			return nil, false
+		}
+		for _, r2 := range eng.Referrers(ia) {
+			if s, ok := r2.(*ssa.Store); ok && s.Addr == ssa.Value(ia) {
+				parts[int(idx)] = c.describeOperand(s.Val)
+				if int(idx) > max {
+					max = int(idx)
+				}
+			}
+		}
+	}
+	var out []string
+	for i := 0; i <= max; i++ {
+		out = append(out, parts[i])
+	}
+	return out, true
+}
+
+func (c *Ctx) describeOperand(v ssa.Value) string {
+	v = eng.Strip(v)
+	if s, ok := eng.ConstString(v); ok {
+		return "c:" + s
+	}
+	if o, _, _, ok := eng.LoadedField(v); ok {
+		return "field:" + o
+	}
+	if p, ok := v.(*ssa.Parameter); ok {
+		return "p:" + p.Name()
+	}
+	if parts, ok := c.joinParts(v); ok {
+		return "join(" + strings.Join(parts, ",") + ")"
+	}
+	if call, ok := v.(*ssa.Call); ok {
+		return "call:" + c.P.CalleeName(call)
+	}
+	return "v:" + v.Name()
 }
